@@ -206,6 +206,45 @@ def run_straightline(stmts, env, enums=None, stop_at=None):
                 r = run_straightline(ir.stmts(br), env, enums, stop_at)
                 if r[0] != "end":
                     return r
+        elif k == "Switch":
+            try:
+                on = ev(unwrap(s["cond"]), env, enums)
+            except Unknown:
+                return ("unknown", s)
+            body = ir.stmts(s.get("body"))
+            start = default = None
+            for i, x in enumerate(body):
+                y = x
+                while isinstance(y, dict) and y.get("k") in ("Case", "Default"):
+                    if y["k"] == "Case":
+                        try:
+                            cvl = ev(unwrap(y["val"]), env, enums) if y.get("val") is not None else None
+                        except Unknown:
+                            cvl = y["val"].get("cv") if isinstance(y.get("val"), dict) else None
+                        if cvl == on and start is None:
+                            start = i
+                    elif default is None:
+                        default = i
+                    y = y.get("sub")
+            if start is None:
+                start = default
+            if start is not None:
+                seq = []
+                for x in body[start:]:
+                    y = x
+                    while isinstance(y, dict) and y.get("k") in ("Case", "Default"):
+                        y = y.get("sub")
+                    if y is not None:
+                        seq.append(y)
+                # statements up to the first break at this level
+                cut = []
+                for y in seq:
+                    if y.get("k") == "Break":
+                        break
+                    cut.append(y)
+                r = run_straightline(cut, env, enums, stop_at)
+                if r[0] != "end":
+                    return r
         elif k == "Throw":
             return ("throw", s)
         elif k == "Return":
